@@ -274,6 +274,7 @@ func (x *Exec) pass() {
 			}
 		}
 		x.exitSt[b] = bst
+		x.loopExitAssertions(b, bst)
 		// back edges out of b
 		for _, s := range b.Succs {
 			if x.backEdge[[2]int{b.Index, s.Index}] {
@@ -691,4 +692,42 @@ func (x *Exec) rangeIndexInv(li *loopInfo, a *ssa.Alloc, cur Term) Term {
 		}
 	}
 	return inv
+}
+
+// loopExitAssertions: `loop K exit EXPR` holds on every edge that leaves loop K
+// (the head's exit branch, a break; a return inside the loop is a return site).
+func (x *Exec) loopExitAssertions(b *ssa.BasicBlock, bst *State) {
+	if x.fc == nil || len(x.fc.LoopExit) == 0 {
+		return
+	}
+	for _, li := range x.loops {
+		cls := x.fc.LoopExit[li.ordinal]
+		if len(cls) == 0 || !(li.body[b] || li.head == b) {
+			continue
+		}
+		for _, s := range b.Succs {
+			if li.body[s] || li.head == s {
+				continue
+			}
+			cond, ok := x.edgeCond[[2]int{b.Index, s.Index}]
+			if !ok {
+				continue
+			}
+			est := bst.clone()
+			est.live = cond
+			en := x.ordinal(fmt.Sprintf("loop%d-exit", li.ordinal))
+			x.obls = append(x.obls, &Obligation{Name: fmt.Sprintf("%s:reach:loop%d-exit@e%d", x.short, li.ordinal, en), Kind: "site-reach", Props: x.props(), Prefix: x.out.Len(), Live: est.live, Goal: "false", Canary: true, Func: x.short})
+			for k, c := range cls {
+				oldSt := x.entry
+				if strings.Contains(c.Text, "athead(") {
+					if hs := x.headStates[li.head]; hs != nil {
+						oldSt = hs
+					}
+				}
+				t := x.evalClause(c, x.fn, est, oldSt, nil, false)
+				o := x.oblige(est, "assert", fmt.Sprintf("loop%d-exit:%d@e%d", li.ordinal, k+1, en), t, b.Instrs[len(b.Instrs)-1].Pos(), false, x.props())
+				o.Clause, o.Line = c.Text, c.Line
+			}
+		}
+	}
 }
